@@ -22,14 +22,15 @@ CLAIMS = {
        "(reversed-string order) and are mutually inverse (C01_xbw_member_round_trip, C01_xbw_id_round_trip); (5) HTFC: the bit-exact model of "
        "the LOADED object (chunked decoding table, decodeString protocol, encoded-header binary search) answers extract / locate like the "
        "specification for every object certified by the verified checkers htfc_check / htfc_check2 (C01_htfc_extract_spec, C02_htfc_locate_spec, "
-       "C01_htfc_roundtrip); (6) the abstract specification "
+       "C01_htfc_roundtrip), the same for HHTFC (two-table variant, C01_hhtfc_*) and for HASHHF in all three hash layouts (Huffman-coded strings "
+       "behind the double-hashing table: C01_hashhf_spec, C01_hashhf_roundtrip); (6) the abstract specification "
        "itself is a bijection [1,n] <-> S. Tie: all 13 kinds x parameters x "
        "{fresh, reloaded} compared with the extracted specification on every id and member; PFC additionally at layout level "
        "(text bytes, offsets) and query level against the extracted concrete model.",
   note="PFC is proved from the constructor on; RPFC, RPDAC, FMINDEX, HASHRPDAC, HASHRPF, Blocks are proved for every object whose dumped "
        "state passes a verified checker (the constructors' Re-Pair / suffix-sorting choices are validated per instance, not verified); "
        "XBW and HTFC likewise (XBW over plain-list bitmaps; HTFC rejects objects with an in-bucket shared prefix that is a multiple of 128: recorded "
-       "finding); HHTFC/RPHTFC/HASHHF/HASHUFFDAC are tied to the specification by correspondence only. "
+       "finding), HHTFC and HASHHF likewise; RPHTFC and HASHUFFDAC are tied to the specification by correspondence only. "
        "RPFC theorems need strings shorter than 2^14 (the real code breaks on 3-byte VBytes: recorded defect). Known findings: known_findings.json.",
   technique="Coq proof (induction over the string list / bucket scan invariants) + extracted-model/implementation correspondence"),
  "C02": dict(
@@ -41,7 +42,7 @@ CLAIMS = {
        "(C02_xbw_absent, C02_xbw_bad_id). Tie: all 13 "
        "kinds on boundary-directed absent queries (proof-directed splice family aimed at the scan's case split) and bad ids, each query in "
        "its own ASan process with an exact-size pattern buffer.",
-  note="Bounds safety is a theorem for the PFC, RPFC, RPDAC, FM, XBW, HTFC and hashing models (checked reads); for the Hu-Tucker/Huffman kinds the ASan verdict of the explored queries is supporting "
+  note="Bounds safety is a theorem for the PFC, RPFC, RPDAC, FM, XBW, HTFC, HHTFC, HASHHF and hashing models (checked reads); for the Hu-Tucker/Huffman kinds the ASan verdict of the explored queries is supporting "
        "evidence, not a proof.",
   technique="Coq proof (checked-read model: out-of-bounds is an unreachable outcome) + correspondence under ASan"),
  "C03": dict(
@@ -62,7 +63,7 @@ CLAIMS = {
        "interval handed to both prefix iterators is the sibling block below the pattern's node (C04_xbw_subPathSearch, "
        "C04_xbw_prefix_iterator_range; the BFS streams themselves: correspondence); specification: matching IDs of a sorted set are one contiguous ascending duplicate-free range. Tie: the "
        "eight prefix-capable kinds against the extracted specification on boundary-directed patterns; PFC also against the concrete model.",
-  note="HHTFC/RPHTFC copies of the PFC algorithm are tied by correspondence only; RPFC and HTFC have their own bit-exact models (C04_htfc_locate_prefix_spec: masked memcmp on encoded headers = prefix classification). The empty pattern is answered wrongly by RPDAC/FMINDEX/XBW (known finding empty-search-pattern). RPDAC and FM theorems are conditional on "
+  note="The RPHTFC copy of the PFC algorithm is tied by correspondence only; RPFC, HTFC and HHTFC have their own bit-exact models (C04_htfc_locate_prefix_spec: masked memcmp on encoded headers = prefix classification). The empty pattern is answered wrongly by RPDAC/FMINDEX/XBW (known finding empty-search-pattern). RPDAC and FM theorems are conditional on "
        "per-instance validated artefacts (grammar / BWT produced by the real constructors, checked by verified checkers in C20 / C05 runs).",
   technique="Coq proof (binary-search and scan invariants) + extracted-model/implementation correspondence"),
  "C05": dict(
